@@ -140,7 +140,11 @@ def gen_case(rng: random.Random, tier: str):
             continue
         if r < 0.46 and first_pulse_done:
             basis = {"rydberg": "ground-rydberg", "raman": "digital", "mw": "XY"}[cid.split("_")[0]]
-            ops.append(dict(op="phase_shift", phi=rng.choice(PHASES[2:]), q=[rng.choice(ids)], basis=basis))
+            # one atom for Local channels; every atom otherwise (a Global pulse
+            # needs equal phase references on all its targets)
+            has_global = any((not c[2]) and c[1].split("_")[0] == cid.split("_")[0] for c in chans)
+            ops.append(dict(op="phase_shift", phi=rng.choice(PHASES[2:]),
+                            q=([] if has_global else [rng.choice(ids)]), basis=basis))
             continue
         dur = rng.choice([4, 8, 8, 12, 16, 20, 32, 50, 64])
         ops.append(dict(
@@ -164,6 +168,14 @@ def gen_case(rng: random.Random, tier: str):
         dur = rng.choice([8, 16, 24])
         ops.append(dict(op="add_dmm", ch=rng.choice(dmm_chs), dur=dur,
                         det=gen_wf(rng, DETS[2:], dur, False, "neg")))
+    if profile == "all":
+        # make sure both bases are driven, so that the 3-level basis is used
+        for name, cid, local in chans:
+            if not any(o["op"] == "add" and o["ch"] == name and o["amp"] != ["const", 0.0] for o in ops):
+                dur = rng.choice([8, 12, 20])
+                ops.append(dict(op="add", ch=name, dur=dur, amp=["const", rng.choice(AMPS[1:])],
+                                det=gen_wf(rng, DETS, dur, False), phase=rng.choice(PHASES),
+                                post=0.0, protocol=rng.choice([0, 1])))
     if rng.random() < 0.15 and len(chans) > 1:
         ops.append(dict(op="align", chs=[c[0] for c in chans[:2]]))
         name, cid, local = rng.choice(chans[:2])
